@@ -80,9 +80,29 @@ def _walrus_if(stmt: ast.stmt) -> Optional[List[ast.stmt]]:
     return [assign, stmt]
 
 
+def _tuple_split(stmt: ast.stmt) -> Optional[List[ast.stmt]]:
+    """ `a, b = x, y` with plain names on the left that the right-hand side does not read is `a = x; b = y` """
+    if not (isinstance(stmt, ast.Assign) and len(stmt.targets) == 1 and isinstance(stmt.targets[0], ast.Tuple)
+            and isinstance(stmt.value, ast.Tuple) and len(stmt.targets[0].elts) == len(stmt.value.elts)
+            and all(isinstance(t, ast.Name) for t in stmt.targets[0].elts)):
+        return None
+    names = {t.id for t in stmt.targets[0].elts}  # type: ignore[attr-defined]
+    if len(names) != len(stmt.targets[0].elts):
+        return None
+    if any(isinstance(n, ast.Name) and n.id in names for v in stmt.value.elts for n in ast.walk(v)):
+        return None
+    if any(isinstance(n, (ast.Call, ast.NamedExpr, ast.Starred)) for v in stmt.value.elts for n in ast.walk(v)):
+        return None  # keep evaluation order questions out of it
+    return [ast.copy_location(ast.Assign(targets=[t], value=v), stmt) for t, v in zip(stmt.targets[0].elts, stmt.value.elts)]
+
+
 def _block(stmts: List[ast.stmt]) -> List[ast.stmt]:
     out: List[ast.stmt] = []
     for stmt in stmts:
+        parts = _tuple_split(stmt)
+        if parts is not None:
+            out.extend(parts)
+            continue
         replaced = _ifexp_stmt(stmt)
         if replaced is not None:
             stmt = replaced
@@ -105,3 +125,10 @@ def desugar(tree: ast.Module) -> ast.Module:
     tree.body = _block(tree.body)
     ast.fix_missing_locations(tree)
     return tree
+
+
+def desugar_function(func: ast.AST) -> ast.AST:
+    """ the same normalisation for a function produced by the inliner """
+    func.body = _block(func.body)  # type: ignore[attr-defined]
+    ast.fix_missing_locations(func)
+    return func
